@@ -25,9 +25,26 @@ const COLORS: [ColorFormat; 12] = [ColorFormat::GRAYSCALE_U8, ColorFormat::GRAYS
     ColorFormat::RGB_U8, ColorFormat::RGB_U16, ColorFormat::RGB_F32, ColorFormat::RGBA_U8, ColorFormat::RGBA_U16, ColorFormat::RGBA_F32];
 const SIZES: [u32; 16] = [0, 1, 2, 3, 4, 5, 7, 8, 9, 12, 13, 16, 17, 31, 33, 40];
 
+/// pseudo special-rate selecting nearly flat content
+const FLAT: u64 = u64::MAX;
 fn content(color: ColorFormat, w: u32, h: u32, special_rate: u64, rng: &mut Rng) -> Vec<u8> {
     let n = w as usize * h as usize * color.channels.count() as usize;
     let mut buf = Vec::with_capacity(n * 4);
+    if special_rate == FLAT {
+        // nearly flat content: every sample within a few units in the last place (f32) / a few codes of one level
+        let spread = 1 + rng.below(8) as u32;
+        let base = (0.05 + rng.below(1 << 20) as f32 / (1u32 << 20) as f32 * 0.95).to_bits();
+        let (b8, b16) = (rng.next() as u8, rng.next() as u16);
+        for _ in 0..n {
+            let k = rng.below(spread as u64 + 1) as u32;
+            match color.precision {
+                Precision::U8 => buf.push(b8.saturating_add((k % 2) as u8)),
+                Precision::U16 => buf.extend_from_slice(&b16.saturating_add(k as u16).to_ne_bytes()),
+                Precision::F32 => buf.extend_from_slice(&(base + k).to_ne_bytes()),
+            }
+        }
+        return buf;
+    }
     for _ in 0..n {
         match color.precision {
             Precision::U8 => buf.push(rng.next() as u8),
@@ -56,7 +73,8 @@ pub fn run(out: &mut Out, tier: &str, seed: u64, _corpus: Option<&str>) {
             if heavy && matches!(quality, CompressionQuality::High | CompressionQuality::Unreasonable) { w = w.min(12); h = h.min(12); }
             if w == 0 || h == 0 { w = 0; h = 0; }        // ImageView normalises empty sizes to 0x0
             let color = COLORS[rng.below(12) as usize];
-            let special_rate = [0u64, 2, 5, 17][round % 4];
+            let special_rate = [0u64, 2, 5, 17, FLAT][round % 5];
+            let color = if special_rate == FLAT && round % 2 == 0 { COLORS[2 + 3 * (rng.below(4) as usize)] } else { color };
             let data = content(color, w, h, special_rate, &mut rng);
             let mut o = EncodeOptions::default();
             o.quality = quality;
@@ -66,7 +84,7 @@ pub fn run(out: &mut Out, tier: &str, seed: u64, _corpus: Option<&str>) {
             let expected = PixelInfo::from(format).surface_bytes(Size::new(w, h)).unwrap() as usize;
             let fail_at = match rng.below(4) { 0 if expected > 0 => Some(rng.below(expected as u64) as usize), _ => None };
             let zero = rng.below(2) == 0;
-            let what = format!("{name} {w}x{h} from {:?} {:?} quality {:?} dithering {:?} metric {:?} parallel {} specials 1/{special_rate} writer fails at {fail_at:?} (zero-length write: {zero})", color.channels, color.precision, o.quality, o.dithering, o.error_metric, o.parallel);
+            let what = format!("{name} {w}x{h} from {:?} {:?} quality {:?} dithering {:?} metric {:?} parallel {} specials {} writer fails at {fail_at:?} (zero-length write: {zero})", color.channels, color.precision, o.quality, o.dithering, o.error_metric, o.parallel, if special_rate == FLAT { "none, nearly flat content".to_string() } else { format!("1/{special_rate}") });
             let Some(view) = ImageView::new(&data, Size::new(w, h), color) else { println!("IMPL-VIOLATION view refused: {what}"); continue; };
             let mut wr = FailingWriter { written: 0, fail_at, zero };
             watch(40, what.clone());
